@@ -553,8 +553,17 @@ fn run_stream(f: &[&str]) -> String {
     if f.len() < 6 {
         return "BAD-CASE".into();
     }
+    let res = run_once(f, f[5]);
+    if f[5] == "base" {
+        return res;
+    }
+    // the same program without compaction, so that "execution continues with the same result" is decidable
+    // from this line alone
+    format!("{} || base {}", res, run_once(f, "base"))
+}
+
+fn run_once(f: &[&str], mode: &str) -> String {
     let src = unescape(f[3]);
-    let mode = f[5];
     let mut d = BasicStore::create(None);
     let tokens = match lex(&src) {
         Ok(t) => t,
